@@ -117,6 +117,16 @@ func EvalG(g G, v Val, bs []binding) (bool, error) {
 		return EvalG(n.B, v, bs)
 	case GStrEq:
 		return v.Str(resolve(n.Path, bs)) == n.Const, nil
+	case GStrTest:
+		str := v.Str(resolve(n.Path, bs))
+		switch n.Op {
+		case "HasPrefix":
+			return strings.HasPrefix(str, n.Const), nil
+		case "HasSuffix":
+			return strings.HasSuffix(str, n.Const), nil
+		default:
+			return strings.Contains(str, n.Const), nil
+		}
 	case GNil:
 		return v.Nil(resolve(n.Path, bs)), nil
 	case GBoolEq:
@@ -208,6 +218,12 @@ func CollectLeaves(t T) *Leaves {
 				l.Consts[n.Path] = map[string]bool{}
 			}
 			l.Consts[n.Path][n.Const] = true
+		case GStrTest:
+			l.StrGuards[n.Path] = true
+			if l.Consts[n.Path] == nil {
+				l.Consts[n.Path] = map[string]bool{}
+			}
+			l.Consts[n.Path][n.Op+":"+n.Const] = true
 		case GNil:
 			l.Ptrs[n.Path] = true
 		case GBoolEq:
@@ -317,6 +333,8 @@ func GString(g G) string {
 		return fmt.Sprint(n.V)
 	case GLeaf:
 		return n.Path
+	case GStrTest:
+		return fmt.Sprintf("%s(%s,%q)", n.Op, n.Path, n.Const)
 	case GNot:
 		return "!" + GString(n.X)
 	case GAnd:
